@@ -33,7 +33,7 @@ var acceptAll = func(*x509.PublicKey) bool { return true }
 
 func rotationScenario(seed uint64) *explore.Scenario {
 	name := fmt.Sprintf("channel-rotation-replay-seed%d", seed)
-	sc := &explore.Scenario{Name: name, PB: 0, NoCache: true}
+	sc := &explore.Scenario{Name: name, PB: 0, NoCache: true, Single: true}
 	sc.Setup = func(x *vrt.Exec) {
 		x.MaxSteps = 2_000_000
 		x.SchedDeterministic = true
